@@ -499,6 +499,21 @@ impl Exec {
         let (out, targets) = self.dispatch(t);
         let events: Vec<Ev> = shadow::with(|sh| std::mem::take(&mut sh.events));
         let after = self.observe_all();
+        // the read-backs must agree with each other on every live handle, whatever its history (C01: as_str, len,
+        // is_empty, as_bytes)
+        let mut bad_readback: Option<String> = None;
+        for (i, slot) in self.pool.iter().enumerate() {
+            if let Some(v) = slot {
+                if v.is_empty() != (v.len() == 0) || v.as_str().len() != v.len() || v.as_bytes() != v.as_str().as_bytes() {
+                    let msg = format!("after `{}` h{i}: is_empty() = {}, len() = {}, as_str() = {:?}, as_bytes().len() = {}", t.join(" "), v.is_empty(), v.len(), v.as_str(), v.as_bytes().len());
+                    bad_readback = Some(msg);
+                    break;
+                }
+            }
+        }
+        if let Some(msg) = bad_readback {
+            self.fail(&["C01"], msg);
+        }
         let _ = reqs_before;
 
         // ---- observation record
